@@ -27,6 +27,11 @@ CLAIMS = {
          "All 779 (precision, scale) pairs x signs x boundary magnitudes are enumerated; random digit strings, text variants, unrepresentable inputs (per root-cause class) and invalid constructions are generated; String() is compared with the exact expansion of u/10^scale, SetString with exact rational arithmetic, rejected input must leave the decimal unchanged.",
          "Variants whose acceptance the documentation does not promise ('+', surrounding spaces, '.5', '5.', zero digits beyond the scale) are tolerated: exact if accepted, otherwise error and unchanged. Precision 0 is not judged (the library itself constructs NewDecimal(0,0)).",
          "DESIGN.md section 3, C16"),
+ "C18": ("exploration",
+         "rapid sequential state machine against a live-id-set model + generated concurrent programs (1..64 goroutines, GOMAXPROCS 1/4/16, forced GCs) under the race detector with an online uniqueness monitor that is sound under every schedule",
+         "Sequential histories are checked against a set-of-live-ids model (id != 0, not live, text = format(id) by own formatting, cleared after release, double/nil release harmless); concurrent programs run against one pool with a monitor that inserts after Acquire returns and removes before Release is called, so any duplicate it sees is a real simultaneous holding; data races are reported by the race detector.",
+         "Schedules are sampled, not enumerated: absence of a report is evidence for the interleavings exercised only. Releasing a value copy of a Name is outside 'releasing it twice'. Id reuse after release is recorded, not required (sync.Pool may drop entries).",
+         "DESIGN.md section 3, C18"),
  "C19": ("exploration",
          "exhaustive enumeration of (range, version) spaces + rapid generation of capability targets with all permutations, oracle = interval membership on an independently parsed semantic version",
          "Every (lower, upper, version) triple over the release grid and a pre-release/build sub-grid, every ordered pair/triple of ranges over small bound sets and all capability orders are enumerated; random targets (1..4 capabilities x 0..4 ranges, malformed ranges/versions injected, default and custom comparer) are evaluated under every permutation against an order-independent oracle.",
